@@ -4,6 +4,7 @@ import itertools
 from engine import guards as G
 from engine import mir, paths
 from . import common as K
+from . import detectors as D
 from .common import POOL, SLOT_STATE, fshort
 
 EXPLANATION = (
@@ -332,6 +333,7 @@ def check(run, prefix="O4"):
         o.check(set(callers) <= {"<" + PI + " as " + POOL + "Pool>::add_vote", POOL + "bench_replay_votes"}, "SlotState::add_vote|callers|test-utils",
                 "with feature test-utils the only extra caller is bench_replay_votes", "", {"callers": [fshort(x) for x in callers]})
 
+    ob_recorded(run, P + ".5")
     # ------------------------------------------------------------------ O4.4 index provenance
     o = run.ob(P + ".4", "the per-validator slot read by the filters and written by add_vote is the vote's own signer",
                "indexing by anything else attributes a vote to another validator", floor=3)
@@ -345,3 +347,46 @@ def check(run, prefix="O4"):
         bad = [c for c in idx if not (K.mentions_call(b.operand_term(c.args[1]), "Vote::signer"))]
         o.check(bool(idx) and not bad, "SlotState::%s|index" % fn, "every SlotVotes[..] index in %s is vote.signer().as_usize() (%d sites)" % (fn, len(idx)), b.span,
                 {"bad": [c.span for c in bad]})
+
+
+def ob_recorded(run, oid):
+    """every vote that reaches SlotState::add_vote is recorded in its kind's per-validator slot: the later filters (duplicate, slashable)
+    and the certificates read nothing else"""
+    prog = run.program("lib")
+    o = run.ob(oid, "SlotState::add_vote records every vote it is given: one store per kind, selected by the kind only, on every path before returning",
+               "a vote that is accepted but not recorded is invisible to the conflict and duplicate filters: a later conflicting vote of the same validator is admitted "
+               "and not reported, and a repeat is not refused", floor=16)
+    b = prog.body(SS + "::add_vote")
+    if b is None:
+        o.missing("SlotState::add_vote")
+        return
+    field_of = {"Notar": "notar", "NotarFallback": "notar_fallback", "Skip": "skip", "SkipFallback": "skip_fallback", "Final": "finalize"}
+    im = {c.dst["l"]: c for c in b.calls() if c.callee == "core::ops::index::IndexMut::index_mut" and K.peel(b.operand_term(c.args[0]))[0] == "field" and K.peel(b.operand_term(c.args[0]))[3] == SV}
+    stores = {}
+    for (bb, i, dst, rv, sp) in b.assignments():
+        if dst["p"] and dst["p"][0][0] == "d" and dst["l"] in im:
+            f = K.peel(b.operand_term(im[dst["l"]].args[0]))[2]
+            stores.setdefault(f, []).append((bb, sp, b.rvalue_term(rv)))
+    for c in b.calls():
+        if c.name.endswith("BTreeMap::insert"):
+            t = b.operand_term(c.args[0])
+            for l, ic in im.items():
+                if K.mentions(t, lambda x: x[0] == "call" and len(x) > 3 and x[3] == ic.bb):
+                    f = K.peel(b.operand_term(ic.args[0]))[2]
+                    stores.setdefault(f, []).append((c.bb, c.span, b.operand_term(c.args[2])))
+    all_bbs = []
+    for kind, f in field_of.items():
+        st = stores.get(f, [])
+        key = "add_vote|%s" % kind
+        if len(st) != 1:
+            o.fail(key + "|store", "expected exactly one store into SlotVotes.%s, found %d" % (f, len(st)), b.span)
+            continue
+        bb, sp, val = st[0]
+        all_bbs.append(bb)
+        o.check(K.mentions(val, lambda x: x[0] == "variant" and x[2] == kind), key + "|stores-the-vote", "the stored value is the %s vote itself" % kind, sp)
+        atoms = G.guard_atoms(b, bb, prog)
+        arm = any(a[0] == "variant" and a[1][1] == frozenset([kind]) and K.mentions_arg(b, a[1][0], 2) for a in atoms)
+        o.check(arm, key + "|arm", "stored in the arm of its own kind", sp)
+        extra = D.extra_guards(prog, b, bb, [lambda a: a[0] == "variant" and K.mentions_arg(b, a[1][0], 2)])
+        o.check(not extra, key + "|unconditional", "no condition other than the kind skips the store", sp, {"extra": G.atoms_show(extra)})
+    o.check(len(all_bbs) == 5 and b.always_followed_by(0, all_bbs), "add_vote|every-path-stores", "every path from entry to a return passes through one of the five stores", b.span)
